@@ -19,6 +19,10 @@ func NondetStringN(name string, n int, alphabet string) string { return "" }
 // NondetBytesLen: a byte slice of arbitrary length <= maxLen whose contents are irrelevant (not materialised symbolically).
 func NondetBytesLen(name string, maxLen int) []byte { return nil }
 
+// JSONValue gives the Go value that a byte slice produced by encoding/json (Marshal/MarshalIndent) encodes:
+// symbolically the value handed to the encoder (the encoder itself is not executed), natively json.Unmarshal.
+func JSONValue(doc []byte) interface{} { return nil }
+
 // Param is a tier-dependent bound chosen by the check driver (a concrete constant in every run).
 func Param(name string) int { return 0 }
 
